@@ -178,6 +178,10 @@ def run(modname: str, tier: str, seed: int) -> int:
         "inconclusive_reasons": ctx.inconclusive,
         "violation_keys": {k: len(by_key[k]) for k in confirmed},
     }
+    bad = [(sp, r) for sp, r in zip(specs, results) if r.get("status") in ("crash", "timeout")]
+    if bad:
+        coverage["crash_samples"] = [{"spec": sp, "status": r.get("status"), "returncode": r.get("returncode"),
+                                      "stderr_tail": (r.get("stderr") or "")[-600:]} for sp, r in bad[:3]]
     if anchors["unresolved"]:
         coverage["anchors_unresolved"] = anchors["unresolved"]
     if hasattr(mod, "EXHAUSTIVE"):
